@@ -19,6 +19,10 @@ static FAKE_ON: AtomicBool = AtomicBool::new(false);
 static FAKE_NS: AtomicI64 = AtomicI64::new(0);
 static FAKE_S: AtomicI64 = AtomicI64::new(T0_SECS);
 
+/// virtual offset added to CLOCK_MONOTONIC (so `Instant` can be moved forward: a connection that
+/// "stays healthy for 6 s", a pause that "lasted 5 s") - never backwards
+static MONO_OFFSET_NS: AtomicI64 = AtomicI64::new(0);
+
 static GATE_ON: AtomicBool = AtomicBool::new(false);
 /// tickets are global and monotonic: a sleeper parked in an earlier run can never be woken by a later one
 static NEXT_TICKET: AtomicUsize = AtomicUsize::new(0);
@@ -66,6 +70,20 @@ pub fn release_latest_sleep() {
     GATE_CV.notify_all();
 }
 
+/// move the monotonic clock seen by std::time::Instant forward
+pub fn advance_monotonic(secs: i64, ns: i64) {
+    MONO_OFFSET_NS.fetch_add(secs * 1_000_000_000 + ns, SeqCst);
+}
+
+/// the real monotonic clock in ns (harness timeouts must not see the virtual offset)
+pub fn real_mono_ns() -> u64 {
+    let mut ts = libc::timespec { tv_sec: 0, tv_nsec: 0 };
+    unsafe {
+        libc::syscall(libc::SYS_clock_gettime, libc::CLOCK_MONOTONIC as libc::c_long, &mut ts as *mut libc::timespec);
+    }
+    ts.tv_sec as u64 * 1_000_000_000 + ts.tv_nsec as u64
+}
+
 /// real sleeping for harness code (never gated, never faked)
 pub fn real_sleep_us(us: u64) {
     let ts = libc::timespec {
@@ -90,7 +108,18 @@ pub unsafe extern "C" fn clock_gettime(clk: libc::clockid_t, ts: *mut libc::time
         }
         return 0;
     }
-    unsafe { libc::syscall(libc::SYS_clock_gettime, clk as libc::c_long, ts) as libc::c_int }
+    let r = unsafe { libc::syscall(libc::SYS_clock_gettime, clk as libc::c_long, ts) as libc::c_int };
+    if r == 0 && clk == libc::CLOCK_MONOTONIC {
+        let off = MONO_OFFSET_NS.load(SeqCst);
+        if off != 0 {
+            unsafe {
+                let total = (*ts).tv_sec as i64 * 1_000_000_000 + (*ts).tv_nsec as i64 + off;
+                (*ts).tv_sec = (total / 1_000_000_000) as libc::time_t;
+                (*ts).tv_nsec = (total % 1_000_000_000) as libc::c_long;
+            }
+        }
+    }
+    r
 }
 
 fn gated_sleep(req: *const libc::timespec) -> bool {
@@ -109,6 +138,8 @@ fn gated_sleep(req: *const libc::timespec) -> bool {
     }
     loop {
         if RELEASED.load(SeqCst) == ticket {
+            // the pause "happened": virtual time moves on by the requested duration
+            MONO_OFFSET_NS.fetch_add(s * 1_000_000_000 + ns, SeqCst);
             return true;
         }
         g = GATE_CV.wait(g).unwrap();
@@ -158,17 +189,22 @@ pub fn self_test() -> Result<(), String> {
     if a.elapsed().as_micros() < 500 {
         return Err("Instant does not advance".into());
     }
+    let b = std::time::Instant::now();
+    advance_monotonic(7, 0);
+    if b.elapsed().as_secs() < 7 {
+        return Err("virtual monotonic offset not effective".into());
+    }
     // gated sleep: a 1 h sleep must park, be logged, and return as soon as it is released
     arm_sleep_gate();
     let base = sleep_requests();
     let h = std::thread::spawn(|| std::thread::sleep(std::time::Duration::from_secs(3600)));
-    let t = std::time::Instant::now();
-    while sleep_requests() == base && t.elapsed().as_secs() < 3 {
+    let t = real_mono_ns();
+    while sleep_requests() == base && real_mono_ns() - t < 3_000_000_000 {
         real_sleep_us(200);
     }
     let log = sleep_log_after(base);
     release_latest_sleep();
-    while !h.is_finished() && t.elapsed().as_secs() < 3 {
+    while !h.is_finished() && real_mono_ns() - t < 3_000_000_000 {
         real_sleep_us(200);
     }
     disarm_sleep_gate();
